@@ -12,7 +12,8 @@ func init() {
 			"1-4 rounds; per round a per-(block,service) script of answers drawn from {ok, flipped bits, short/long body with consistent length, declared length longer than sent then close, " +
 			"Content-Length smaller than body, chunked ok/flipped/short/long/cut, close-delimited ok/short, 404, 408/429/500/502/503, connection reset at 3 stages} and readers drawn from " +
 			"{Get+Read with random chunk sizes, io.Copy, WriteTo, ReadAll, Get closed early, cached ReadAt at random offsets, File.Read/Seek through CollectionFileReader}, serial or 2-8 concurrent on one BlockCache), " +
-			"followed by reads with every service behaving; oracle = harness-generated block bytes + byte-array file model + log of what each service really sent; " +
+			"followed by reads with every service behaving; plus answer kind bigtail (block-sized head, intact or corrupt, then a streamed junk tail of 32 KiB..3 MiB) in the main stream, " +
+			"an exhaustive grid (stream drain: unread remainder x head x framing x reader that stops at the block size / early / never) and early-closed corrupt 1-2.5 MiB blocks (stream bigblock); oracle = harness-generated block bytes + byte-array file model + log of what each service really sent; " +
 			"non-trivial = at least one misbehaving answer was actually served; distinct = distinct (mode, hint, set of answer classes served, outcomes seen) tuples",
 		Assume: []string{"Go's net/http client and server frame responses faithfully (Content-Length, chunking, connection close)",
 			"a connection reset may or may not let the client see bytes sent before it, so resets are never counted as 'a 200 response was consumed'",
